@@ -327,7 +327,12 @@ def array_verdicts(ctx, db, aff, cfg, u, vals, svs):
     # nested containers (no NaN): every element of every tuple is checked
     flat = [x for x in vals if x == x]
     if len(flat) >= 2 and has_limit:
-        for kn, nested in (("list-of-tuples", [tuple(flat[:1]), tuple(flat[1:])]), ("tuple-of-tuples", (tuple(flat[:-1]), tuple(flat[-1:])))):
+        import collections
+
+        Pt1, PtN = collections.namedtuple("Pt1", "a"), collections.namedtuple("PtN", ["v%d" % i for i in range(len(flat) - 1)])
+        for kn, nested in (("list-of-tuples", [tuple(flat[:1]), tuple(flat[1:])]), ("tuple-of-tuples", (tuple(flat[:-1]), tuple(flat[-1:]))),
+                           # rows that are named tuples (points with named coordinates) are rows
+                           ("list-of-named-tuples", [Pt1(flat[0]), PtN(*flat[1:])]), ("tuple-of-named-tuples", (PtN(*flat[:-1]), Pt1(flat[-1])))):  # fmt: skip
             ctx.ev()
             try:
                 g = Array(c, nested, u).IsValid()
